@@ -1,1 +1,2 @@
+import Proofs.LayoutRoles
 import Proofs.Paginate
